@@ -1046,6 +1046,7 @@ class OptionStore:
             changed |= self.set_option(key.evolve(name=opt.deprecated), new_value, first_invocation)
 
         new_value = opt.validate_value(new_value)
+        new_augment = False
         if key in self.options:
             old_value = opt.value
             opt.set_value(new_value)
@@ -1053,6 +1054,7 @@ class OptionStore:
         else:
             assert key.subproject is not None
             old_value = self.augments.get(key, opt.value)
+            new_augment = key not in self.augments
             self.augments[key] = new_value
 
         changed |= old_value != new_value
@@ -1072,7 +1074,10 @@ class OptionStore:
             self.set_option(dkey, debug, first_invocation)
             self.set_option(optkey, optimization, first_invocation)
 
-        return changed
+        # Pinning a subproject to the value it currently inherits changes the
+        # stored state too (the override must survive a later change of the
+        # parent value), so report it to callers that decide whether to save.
+        return changed or new_augment
 
     def set_user_option(self, o: OptionKey, new_value: ElementaryOptionValues, first_invocation: bool = False) -> bool:
         if not self.is_cross and o.is_for_build():
